@@ -65,6 +65,7 @@ package gometrics
 
 //@ func (*gometricsMetricPoller).poll
 //@   ensures[C20] polls_supplier: ncalls("funcvalue:metric_registry/gometrics.gometricsMetricPoller.supplier") == 1 && ret0 == p.id && ret1 == callres("funcvalue:metric_registry/gometrics.gometricsMetricPoller.supplier", 0, 0) && ret3 == callres("funcvalue:metric_registry/gometrics.gometricsMetricPoller.supplier", 0, 1)
+//@   assigns nothing
 
 //@ func (*metricSampleListener).AddSample
 //@   requires objs: (l.metricType == 0 ==> l.distribution != nil) && (l.metricType == 1 ==> l.timer != nil) && (l.metricType == 2 ==> l.counter != nil) && isFinite(value) && -4.0e18 <= value && value <= 4.0e18
